@@ -164,16 +164,32 @@ Fixpoint partial_build (rules : list rule) (vals : list (str * value)) (meth : o
       else partial_build rs vals meth
   end.
 
+(* ... with host_matching: the first suitable rule whose built host is the bound server name, else the
+   first suitable rule that builds *)
+Fixpoint partial_build_hm (server : str) (rules : list rule) (vals : list (str * value)) (meth : option str)
+         (first : option (rule * str * str)) : bres (option (rule * str * str)) :=
+  match rules with
+  | [] => BOk first
+  | r :: rs =>
+      if suitable_for r vals meth then
+        bbind (build_rule r vals) (fun dp =>
+          if list_eqb (fst dp) server then BOk (Some (r, fst dp, snd dp))
+          else partial_build_hm server rs vals meth (match first with None => Some (r, fst dp, snd dp) | Some _ => first end))
+      else partial_build_hm server rs vals meth first
+  end.
+Definition pbuild (m : rmap) (a : adapter) (rules : list rule) (vals : list (str * value)) (meth : option str)
+  : bres (option (rule * str * str)) :=
+  if m_host_matching m then partial_build_hm (a_server a) rules vals meth None else partial_build rules vals meth.
+
 Definition HTTPS : str := [104; 116; 116; 112; 115].
-(* MapAdapter.build(endpoint, values, method, force_external, append_unknown=False) for maps
-   without host matching; None = BuildError *)
+(* MapAdapter.build(endpoint, values, method, force_external, append_unknown=False); None = BuildError *)
 Definition adapter_build (m : rmap) (a : adapter) (endpoint : N) (vals : list (str * value)) (meth : option str)
            (force_external : bool) : bres (option str) :=
   bbind (match meth with
-         | Some _ => partial_build (rules_for m endpoint) vals meth
+         | Some _ => pbuild m a (rules_for m endpoint) vals meth
          | None =>   (* method None: the default method first, then any *)
-             bbind (partial_build (rules_for m endpoint) vals (Some GET)) (fun rv =>
-               match rv with Some _ => BOk rv | None => partial_build (rules_for m endpoint) vals None end)
+             bbind (pbuild m a (rules_for m endpoint) vals (Some GET)) (fun rv =>
+               match rv with Some _ => BOk rv | None => pbuild m a (rules_for m endpoint) vals None end)
          end) (fun rv =>
   match rv with
   | None => BOk None
@@ -184,7 +200,8 @@ Definition adapter_build (m : rmap) (a : adapter) (endpoint : N) (vals : list (s
       let scheme := if ws then (if secure then WSS else WS)
                     else if is_nil (a_scheme a) then [] else (if secure then HTTPS else HTTP) in
       if negb (force_external || ws)
-         && (match bound_subdomain m a with Some s => list_eqb dp s | None => false end)
+         && (if m_host_matching m then list_eqb host (a_server a)
+             else match bound_subdomain m a with Some s => list_eqb dp s | None => false end)
       then BOk (Some (rstrip (N.eqb SLASH) (script_name a) ++ SLASH :: lstrip_slash path))
       else BOk (Some ((if is_nil scheme then [] else scheme ++ [COLON]) ++ [SLASH; SLASH] ++ host
                       ++ removelast (script_name a) ++ SLASH :: lstrip_slash path))
@@ -194,14 +211,17 @@ Definition adapter_build (m : rmap) (a : adapter) (endpoint : N) (vals : list (s
 Definition with_subdomain (a : adapter) (sub : str) : adapter :=
   {| a_scheme := a_scheme a; a_server := a_server a; a_script := a_script a; a_subdomain := Some sub;
      a_query := a_query a |}.
+Definition with_server (a : adapter) (host : str) : adapter :=
+  {| a_scheme := a_scheme a; a_server := host; a_script := a_script a; a_subdomain := None; a_query := a_query a |}.
 
 (* the request a client sends for the URL built for (endpoint, values): the host selects the
    subdomain, the server strips the script root and percent-decodes the rest *)
 Definition build_then_match (h : hooks) (m : rmap) (a : adapter) (endpoint : N) (vals : list (str * value))
            (meth : str) : bres (option outcome) :=
-  bbind (partial_build (rules_for m endpoint) vals (Some meth)) (fun rv =>
+  bbind (pbuild m a (rules_for m endpoint) vals (Some meth)) (fun rv =>
     match rv with
     | None => BOk None
     | Some (r, dp, path) =>
-        BOk (Some (map_match h m (with_subdomain a dp) (unquote (SLASH :: lstrip_slash path)) meth))
+        BOk (Some (map_match h m (if m_host_matching m then with_server a dp else with_subdomain a dp)
+                     (unquote (SLASH :: lstrip_slash path)) meth))
     end).
